@@ -207,6 +207,8 @@ def _replay_job(agg, binary, config, gpath, depth, structure, params, walks, wal
     label = "%s:%s" % (structure, params)
     with agg.lock:
         if not summ:
+            if rc in (-999, -9):
+                raise FrameworkError("nn replay timed out / was killed (rc=%s, %s on %s depth %s)" % (rc, label, config, depth))
             if "CRASH" in out or rc in (70, 77, 78) or rc < 0:
                 agg.crashes.append((label, config, depth, walks, alphabet, reuse, (err or out)[-1500:]))
                 return
@@ -232,6 +234,19 @@ def _record_worker(binary, idx, structure, params, nexec, nops):
     rec = _parse_lines(out, "RECORDED")
     info = {"structure": structure, "params": params, "trace": tpath, "crashed": rc != 0 or not rec,
             "stderr": (err or out)[-1500:], "rec": rec[0] if rec else None}
+    if info["crashed"]:
+        # a sanitizer abort does not flush the trace: keep the complete lines and close the file
+        # with the Crash event the recorder could not write (no action of the trace spec matches it)
+        good = []
+        if os.path.exists(tpath):
+            for line in open(tpath, errors="replace"):
+                try:
+                    good.append(json.loads(line))
+                except ValueError:
+                    break
+        if not good or good[-1].get("e") != "Crash":
+            good.append({"e": "Crash", "what": "recorder exited with status %s" % rc})
+        vlib.write_ndjson(tpath, good)
     acc, prefix, res = validate_trace("ds/NearestNeighborsTrace", tpath, timeout=3000, heap="2g")
     info.update(accepted=acc, prefix=prefix, events=sum(1 for _ in open(tpath)))
     return info
@@ -329,7 +344,11 @@ def run(tier):
     ck.set("exhaustive", True)
 
     # ---- verdicts: replay
+    seen = set()
     for label, config, depth, walks, alphabet, reuse, tail in agg.crashes:
+        if label in seen:
+            continue
+        seen.add(label)
         rp = ck.replay_file("crash-%s.json" % label.replace(":", "_"),
                             json.dumps({"kind": "crash", "config": config, "depth": depth, "walks": walks,
                                         "alphabet": alphabet, "reuse": reuse, "combo": label, "output": tail}, indent=1))
